@@ -33,8 +33,7 @@ inductive Ev where
   | quiescentCounter (k : Int)
   /-- an execution attempt of `c` has come back (`ExecuteCheck` returned: result delivered, process spawned, or the single-flight
       guard found busy) and nobody but the scheduler's own machinery wrote `next_check` since the attempt was dispatched:
-      the clock at the (earliest outstanding) dispatch and `next_check` as it stands now.  Also: the scheduler takes an entry that it
-      had skipped before (at clock `dispatchedAt`), under the key `next` -/
+      the clock at the (earliest outstanding) dispatch and `next_check` as it stands now -/
   | rearmed (c : Nat) (dispatchedAt next : Int)
   deriving Repr, DecidableEq
 
